@@ -157,9 +157,14 @@ def do_restart(world, rep, op):
     if fired_w:
         world.count('fault.F-WR.swallowed-or-late')
     check_handles(world, tag, op, handle)
-    data = written_bytes(world, op, path, handle)
+    try:
+        data = written_bytes(world, op, path, handle)
+        rows = split_rows(data, enc, wd)
+    except (OSError, EOFError, ValueError, UnicodeDecodeError) as ex:
+        # what is on the simulated disk is not a valid file of the requested flavour / encoding
+        raise Violation(tag + '.bytes', 'undecodable-file', {'op': op, 'error': repr(ex)[:200],
+                                                             'head': repr(bytes(world.fs.files.get(path, b''))[:40])})
     # the bytes on the simulated disk at return: exactly the rows the statement describes
-    rows = split_rows(data, enc, wd)
     if rows and rows[-1] is None:
         raise Violation(tag + '.bytes', 'last-row-not-terminated', {'op': op, 'tail': repr(data[-40:])})
     d = wd if wd is not None else ' '
@@ -251,7 +256,10 @@ def do_restart(world, rep, op):
     check_derived(world, tag, h, hm, cls, op, nodes_exact=True)
     if via == 'interactions' and not op.get('keys') and not (tainted and 'D20' in world.open_guards):
         st2, s2 = call(lambda: [tuple(e) for e in h.stream_interactions()])
-        if st2 != 'ok' or s2 != parsed:
+
+        def per_instant(evs):      # chronological; the order of events inside one instant is free
+            return [e[3] for e in evs], sorted(evs, key=lambda e: (e[3], repr(e)))
+        if st2 != 'ok' or per_instant(s2) != per_instant(parsed):
             raise Violation(tag + '.roundtrip-stream', 'stream-differs', {'op': op, 'written': parsed[:40],
                                                                            'read_back': repr(s2)[:600]})
     new = Replica(h, hm, 'read_' + via, op['g'])
